@@ -253,14 +253,23 @@ func init() {
 				if c > max(n, 1) {
 					continue
 				}
-				props := []string{"C08", "C05", "C16", "C17"}
+				// C08 runs every kind; the other properties a representative half (the AddAll bodies are copy-pasted
+				// per worker kind x queue kind, the completion path is shared)
+				props := []string{"C08", "C07"}
+				if (kp.W == ResW && kp.Q == Fifo) || (kp.W == ErrW && kp.Q == Prio) || (kp.W == Plain && kp.Q == Fifo) {
+					props = append(props, "C05", "C16", "C17")
+					if n == 3 && c >= 2 {
+						props = append(props, "C01")
+					}
+				}
+				quick := 2
 				if n == 3 && c >= 2 {
-					props = append(props, "C01")
+					quick = 1 // four or more runnable threads: NB2 is the thorough bound
 				}
 				Register(&Scenario{
 					Name:  name("batch/%s/n%dc%d", kp, n, c),
 					Props: props,
-					Mode:  "NB", Quick: 2, Thorough: 3, Shards: 4,
+					Mode:  "NB", Quick: quick, Thorough: 3, Shards: 4,
 					Body: func(h *H) {
 						h.CrashProp = "C08"
 						h.HangProp = "C08"
@@ -277,7 +286,8 @@ func init() {
 						for i := range tags {
 							tags[i], prios[i] = i, n-i
 						}
-						b := q.AddAll(tags, prios)
+						// the second item (and the third of three) carries no ID of its own
+						b := q.AddAllIDs(tags, prios, map[int]bool{1: true, 2: n == 3})
 						if b.Results != nil || b.Errs != nil {
 							go func() { h.ReadStream(b) }()
 						}
